@@ -16,6 +16,9 @@ THEOREMS = [
     "GmqttVerif.Fed.stable_stream_reaches_quiescence",
     "GmqttVerif.Fed.resync_restores_partial",
     "GmqttVerif.Fed.clean_start_resyncs",
+    "GmqttVerif.Fed.localSubs_refcount",
+    "GmqttVerif.Fed.localSubs_events_exactly_on_edges",
+    "GmqttVerif.Fed.hook_event_reaches_every_peer",
 ]
 COMPS = ["fedqueue", "fedsession", "localsubs", "fedsim"]
 
@@ -169,14 +172,13 @@ def body(rng, shared_ok):
 
 def gen_session(rng, f19=False):
     """self name `A` marks a protocol-conformant sender (ids as the real peer would send them), `X` an adversarial one.
-    Shared subscriptions are only generated when no clean start / node failure can hit a node that holds some
-    (F19, reported by the separate stream fedsession-f19 where they are always allowed)."""
+    `f19=True`: always conformant, shared subscriptions combined with clean starts and node failures (regression stream for F19)."""
     conform = f19 or rng.random() < 0.6
     ops = [f"new {'A' if conform else 'X'}"]
     nodes = ["B", "C"]
     st = {n: dict(joined=False, sid=1, rsid=None, rnext=0, hist=[], pos=0, open=False) for n in nodes}
     resume_only = (not f19) and rng.random() < 0.5      # one clean start per node, never fail
-    shared_ok = f19 or resume_only
+    shared_ok = True                                     # (F19 fixed in a8278d7: clean starts may hit shared entries)
     n_ops = rng.choice([8, 25, 60, 160])
     long_run = rng.random() < 0.12
     for _ in range(rng.randint(3, n_ops)):
@@ -550,17 +552,14 @@ def nontriv_sim(ops, out):
 def rec_lost_hello(info):
     return info["stream"] == "fedsim" and any(op == "cut-hello-resp" for op in info["ops"])
 
-def rec_f19(info):
-    return info["stream"] == "fedsession-f19" and "F19" in (info.get("why") or "")
-
-RECOGNISERS = {"lost-hello": rec_lost_hello, "f19-fed": rec_f19}
+RECOGNISERS = {"lost-hello": rec_lost_hello}
 
 def streams(tier):
     k = 1 if tier == "quick" else 20
     return [
         (core.Stream("fedqueue", "fedqueue", gen_queue, pred_queue, nontriv_queue, keep_prefix=1), 4000 * k),
         (core.Stream("fedsession", "fedsession", gen_session, pred_session, nontriv_session, keep_prefix=1), 4000 * k),
-        (core.Stream("fedsession-f19", "fedsession", lambda rng: gen_session(rng, True), pred_session, nontriv_session, keep_prefix=1), 300 * k),
+        (core.Stream("fedsession-shared", "fedsession", lambda rng: gen_session(rng, True), pred_session, nontriv_session, keep_prefix=1), 300 * k),
         (core.Stream("localsubs", "localsubs", gen_local, pred_local, nontriv_local, keep_prefix=1), 4000 * k),
         (core.Stream("fedsim", "fedsim", gen_sim, pred_sim, nontriv_sim, keep_prefix=1, timeout=600), 400 * k),
     ]
@@ -583,6 +582,6 @@ ASSUME = ["one live stream per (sender, receiver) pair at a time: a node says He
           "session ids (uuid) are never reused",
           "each eventQueue / sessionMgr / localSubStore method is atomic (they hold their mutex); the gap between localSubStore.subscribe and "
           "queue.add in the hooks is NOT atomic in the code — see findings/c16-hook-order-race.md",
-          "the federation subscription tree is modelled by its specification (set of node×share×filter); deviations of mem.TrieDB.UnsubscribeAll "
-          "for shared entries (F19) are reported by stream fedsession-f19",
+          "the federation subscription tree is modelled by its specification (set of node×share×filter); stream fedsession-shared compares it with "
+          "the real mem.TrieDB under clean starts / node failures with shared entries (F19, fixed in a8278d7)",
           "gRPC delivers stream messages in order and reports a broken connection as an error from Send/Recv; serf membership is an input"]
